@@ -1134,6 +1134,15 @@ func (p *parser) walkBlock(block ast.Node, cb func(node ast.Node)) {
 	cb(block)
 }
 
+// trailingBackslashes returns the length of the run of backslashes at the end of line.
+func trailingBackslashes(line []byte) int {
+	n := 0
+	for i := len(line) - 1; i >= 0 && line[i] == '\\'; i-- {
+		n++
+	}
+	return n
+}
+
 const (
 	lineBreakHard uint8 = 1 << iota
 	lineBreakSoft
@@ -1156,13 +1165,12 @@ func (p *parser) parseBlock(block text.BlockReader, parent ast.Node, pc Context)
 		lineLength := len(line)
 		var lineBreakFlags uint8
 		hasNewLine := line[lineLength-1] == '\n'
-		if ((lineLength >= 3 && line[lineLength-2] == '\\' &&
-			line[lineLength-3] != '\\') || (lineLength == 2 && line[lineLength-2] == '\\')) && hasNewLine { // ends with \\n
+		if hasNewLine && lineLength >= 2 && line[lineLength-2] == '\\' &&
+			trailingBackslashes(line[:lineLength-1])%2 == 1 { // ends with an unescaped \\n
 			lineLength -= 2
 			lineBreakFlags |= lineBreakHard | lineBreakVisible
-		} else if ((lineLength >= 4 && line[lineLength-3] == '\\' && line[lineLength-2] == '\r' &&
-			line[lineLength-4] != '\\') || (lineLength == 3 && line[lineLength-3] == '\\' && line[lineLength-2] == '\r')) &&
-			hasNewLine { // ends with \\r\n
+		} else if hasNewLine && lineLength >= 3 && line[lineLength-3] == '\\' && line[lineLength-2] == '\r' &&
+			trailingBackslashes(line[:lineLength-2])%2 == 1 { // ends with an unescaped \\r\n
 			lineLength -= 3
 			lineBreakFlags |= lineBreakHard | lineBreakVisible
 		} else if lineLength >= 3 && line[lineLength-3] == ' ' && line[lineLength-2] == ' ' &&
